@@ -342,6 +342,8 @@ func ruleHookPlumbing(r *Run, p *Prog) {
 			continue
 		}
 		viaHook, bufWrite := false, false
+		// a shared private "context with this hook added" helper is part of each of the three
+		m = p.View(m, "keep-Logger.Hook", func(g *ssa.Function) bool { return g == lh })
 		eachInstr(m, func(b *ssa.BasicBlock, i int, in ssa.Instruction) {
 			if c, ok := in.(*ssa.Call); ok {
 				if staticCallee(&c.Call) == lh {
